@@ -2,11 +2,15 @@ module verifharness
 
 go 1.21
 
-require github.com/robfig/soy v0.0.0
+require (
+	github.com/robfig/gettext v0.0.0-20200526193151-a093425df149
+	github.com/robfig/soy v0.0.0
+)
 
 require (
 	github.com/fsnotify/fsnotify v1.4.9 // indirect
 	golang.org/x/sys v0.0.0-20220722155257-8c9f86f7a55f // indirect
+	golang.org/x/text v0.3.8 // indirect
 )
 
 replace github.com/robfig/soy => /repo
